@@ -66,7 +66,13 @@ fn main() {
         "C03" => props_e1::c03(&args),
         "C04" => props_e1::c04(&args),
         "C05" => en_codec::run(&args),
-        "C06" => en_decode::run(&args),
+        "C06" => {
+            let mut rep = en_decode::run(&args);
+            if args.replay.is_none() {
+                props_e2::c06_daemon(&mut rep, args.tier);
+            }
+            rep
+        }
         "C07" => props_e1::c07(&args),
         "C08" => props_e1::c08(&args),
         "C09" => seq_segments::run(&args),
